@@ -64,7 +64,7 @@ def plan(tier, seed):
     n = 12 if tier == "quick" else 40
     specs = []
     for name, w in workloads(tier).items():
-        for s in range(2 if tier == "quick" else 4):
+        for s in range(2 if tier == "quick" else 10):
             specs.append({"name": f"{name}-s{s}", "wname": name, "w": w, "n": n, "seed": seed, "s": s, "all_k": True})
     return specs
 
